@@ -110,9 +110,16 @@ VARIANT_INDEX = {"Ok": 0, "Err": 1, "None": 0, "Some": 1, "Continue": 0, "Break"
 
 
 def strip_payload(t):
-    """Look through Ok/Some/Continue payload selection and phi of one."""
-    while isinstance(t, tuple) and t and t[0] == "vfield":
-        t = t[1]
+    """Look through Ok/Some/Continue payload selection (unwrap/expect/`?` are transparent in terms), also of a value that was just wrapped:
+    `Ok(x)` built by a helper and unwrapped by its caller is x."""
+    for _ in range(12):
+        if isinstance(t, tuple) and t and t[0] == "vfield":
+            t = t[1]
+        elif isinstance(t, tuple) and len(t) >= 3 and t[0] == "agg" and isinstance(t[1], str) and t[1].rsplit("::", 1)[-1] in ("Ok", "Some") and \
+                (t[1].startswith("core::result::Result") or t[1].startswith("core::option::Option")) and isinstance(t[2], tuple) and len(t[2]) == 1:
+            t = t[2][0]
+        else:
+            break
     return t
 
 
@@ -322,12 +329,20 @@ class Ev:
                     return ops[e["f"]]
             if t[0] == "closure" and e["f"] < len(t[2]):
                 return t[2][e["f"]]
+            if t[0] == "phi" and t[1] and all(isinstance(a, tuple) and len(a) >= 3 and a[0] == "agg" and a[1] == "tuple" and e["f"] < len(a[2]) for a in t[1]):
+                # `let (a, b) = if c { (x, true) } else { (y, false) }`: a component of the merged tuple is the merge of the components
+                comps = []
+                for a in t[1]:
+                    if a[2][e["f"]] not in comps:
+                        comps.append(a[2][e["f"]])
+                return comps[0] if len(comps) == 1 else ("phi", tuple(comps))
             if t[0] == "variant":
                 base, vname = t[1], t[2]
                 if base[0] == "phi":
                     # only the alternatives built as this variant can be matched as it (Ok/Continue, Err/Break, Some, None by index)
                     want = VARIANT_INDEX.get(vname)
                     alts = []
+                    others = []
                     unknown = False
                     for alt in base[1]:
                         if alt[0] == "agg" and isinstance(alt[1], str) and "::" in alt[1]:
@@ -338,10 +353,14 @@ class Ev:
                             pass        # `x?` that failed: FromResidual builds the failure variant, never the one matched here
                         else:
                             unknown = True
+                            others.append(alt)
                     if not unknown and len(alts) == 1:
                         base = alts[0]
                         if e["f"] < len(base[2]):
                             return base[2][e["f"]]
+                    if unknown and not alts and len(others) == 1 and len(base[1]) > 1:
+                        # `x?` residuals aside, one producer is left: the matched payload is that producer's
+                        base = others[0]
                 if base[0] == "agg" and str(base[1]).endswith("::" + vname):
                     ops = base[2]
                     if e["f"] < len(ops):
@@ -572,13 +591,15 @@ class Ev:
         args = tuple(self.call_args(b))
         if is_transparent(path, f.get("trait"), f.get("trait_method")) and args:
             # derived Clone on local types etc. are still "the same value"
+            if strip_generics(path).split("::")[-1] in ("unwrap", "expect"):
+                return self.unwrapped(args[0])
             return args[0]
         # x.unwrap_or_else(|e| panic!(..)): the closure never returns, so the value is the payload of x (like expect)
         if len(args) == 2 and strip_generics(path) in ("core::option::Option::unwrap_or_else", "core::result::Result::unwrap_or_else") \
                 and isinstance(args[1], tuple) and args[1] and args[1][0] == "closure":
             cf = self.prog.fns.get(args[1][1])
             if cf is not None and 0 in cf.diverging():
-                return args[0]
+                return self.unwrapped(args[0])
         # x.map(|v| f(v)) on Option/Result: the payload is the closure body applied to the payload of x (wrapper and payload are one term here)
         if len(args) == 2 and strip_generics(path) in ("core::option::Option::map", "core::result::Result::map") and isinstance(args[1], tuple) and args[1] and args[1][0] == "closure":
             r = self.apply_closure(args[1], [self.payload_term(args[0])])
@@ -587,6 +608,12 @@ class Ev:
         # x.and_then(|v| f(v)) on Option/Result: f applied to the payload (wrapper and payload are one term here)
         if len(args) == 2 and strip_generics(path) in ("core::option::Option::and_then", "core::result::Result::and_then") and isinstance(args[1], tuple) and args[1] and args[1][0] == "closure":
             r = self.apply_closure(args[1], [self.payload_term(args[0])])
+            if r is not None:
+                return r
+        # a local closure called directly, `let f = |a, b| ..; f(x, y)`: its body applied to the arguments
+        if len(args) == 2 and isinstance(args[0], tuple) and args[0] and args[0][0] == "closure" and "{closure#" in str(path) and args[0][1] == path \
+                and isinstance(args[1], tuple) and len(args[1]) >= 3 and args[1][0] == "agg" and args[1][1] == "tuple":
+            r = self.apply_closure(args[0], list(args[1][2]))
             if r is not None:
                 return r
         # x.map(path::to::function): the function applied to the payload
@@ -607,6 +634,21 @@ class Ev:
         if f.get("trait") in ("core::ops::index::Index", "core::ops::index::IndexMut") and len(args) == 2:
             return ("index", args[0], args[1])
         return ("call", path, args, (self.fn.path, b))
+
+    @staticmethod
+    def unwrapped(t):
+        """The payload of a Result/Option value that this function built itself (directly or through an inlined helper): `Ok(x)` on the success
+        path and `?` residuals on the others - what unwrap/expect returns is x."""
+        def is_wrap(a):
+            return isinstance(a, tuple) and len(a) >= 3 and a[0] == "agg" and isinstance(a[1], str) and a[1] in ("core::result::Result::Ok", "core::option::Option::Some") \
+                and isinstance(a[2], tuple) and len(a[2]) == 1
+        if is_wrap(t):
+            return t[2][0]
+        if isinstance(t, tuple) and t and t[0] == "phi":
+            rest = [a for a in t[1] if not (isinstance(a, tuple) and a and a[0] == "call" and strip_generics(a[1]).split("::")[-1] == "from_residual")]
+            if len(rest) == 1 and is_wrap(rest[0]) and len(rest) < len(t[1]):
+                return rest[0][2][0]
+        return t
 
     RANGE = "core::ops::range::Range::Range"
     RANGE_FROM = "core::ops::range::RangeFrom::RangeFrom"
